@@ -977,11 +977,11 @@ NextC20 ==
               Lock(x, lt, "range", r[1], r[2], TRUE, s, lo, NoSid, nextId.other)
         \/ \E s \in CurSids(cx[x].i) : \E lt \in {"R", "W"} : \E r \in Ranges :
               Lock(x, lt, "range", r[1], r[2], FALSE, NoSid, "", s, nextId.other)
-        \/ \E lo \in LOs : \E lt \in {"R", "W"} : \E r \in Ranges : LockTest(x, lt, "range", r[1], r[2], lo)
+        \/ \E lo \in LOs : \E lt \in {"W"} : \E r \in Ranges : LockTest(x, lt, "range", r[1], r[2], lo)
         \/ \E s \in CurSids(cx[x].i) : \E r \in Ranges : LockU(x, s, "range", r[1], r[2])
-        \/ \E s \in CurSids(cx[x].i) : FreeStateID(x, s)
         \/ \E oo \in OOs : Open(x, oo, 3, 0, "NOCREATE", "FH", "", nextId.other)
-        \/ \E s \in CurSids(cx[x].i) : Close(x, s)
+        \/ Family = "C20" /\ \E s \in CurSids(cx[x].i) : FreeStateID(x, s)
+        \/ Family = "C20" /\ \E s \in CurSids(cx[x].i) : Close(x, s)
 
 \* C19: one session; COMPOUNDs consist of PUTROOTFH / OPEN / GETFH so that
 \* replies differ in shape and requests have effects that must not repeat;
